@@ -5,6 +5,14 @@
 (*        altered, as classified by the harness's independent wire walker),    *)
 (*        p (policy), effect (zone changed / zone data returned), reply (null  *)
 (*        or [signed, verifies, modifiedTried, modifiedAccepted])              *)
+(*   muxreply  a TSIG-signed request (AXFR / UPDATE) went through the real     *)
+(*        client-side DnsMultiplexer (drive_c16 mux-tsig); msgs = the messages  *)
+(*        of the reply in arrival order, each [kind, result]:                   *)
+(*          kind    "genuine" (signed by the key holder, chained per RFC 8945   *)
+(*                  5.3.1) | "bitflip" (one MAC-covered bit altered) | "badmac" *)
+(*                  (garbage MAC) | "otherkey" (signed with another secret)     *)
+(*          result  what the request's receiver got for that message: "ok"      *)
+(*                  (handed over as a good response) | "err" | "none"           *)
 (* The monitor evaluates the requirement operators of TsigOps per event.       *)
 EXTENDS TsigOps, TLC, Json, IOUtils
 
@@ -14,12 +22,28 @@ Init == l = 1
 e == Rec[l]
 
 HasReply == "signed" \in DOMAIN e.reply
-Allowed ==
+ReqAllowed ==
     /\ C13_EffectOk(e.r, e.p, e.effect)
     /\ HasReply => C13_ReplyOk(e.r, e.p, e.effect, e.reply)
 
+(* "... the client-side verifier accepts it and rejects any modified reply", for *)
+(* every message of a reply (a zone transfer is a sequence of messages, each     *)
+(* chained to its predecessor's MAC, RFC 8945 5.3.1):                            *)
+\*  - no message that was not made by the key holder is handed over as good;
+\*  - every genuine message up to the first such message is handed over (against vacuity:
+\*    what happens to genuine messages after a rejected one is left open).
+IsMux == e.ev = "muxreply"
+Forged(i) == e.msgs[i].kind # "genuine"
+C13_MuxNoForgedAccepted == \A i \in 1..Len(e.msgs) : Forged(i) => e.msgs[i].result # "ok"
+C13_MuxGenuineAccepted ==
+    \A i \in 1..Len(e.msgs) : (\A j \in 1..i : ~Forged(j)) => e.msgs[i].result = "ok"
+MuxAllowed == Len(e.msgs) > 0 /\ C13_MuxNoForgedAccepted /\ C13_MuxGenuineAccepted
+
+Allowed == IF IsMux THEN MuxAllowed ELSE ReqAllowed
+
 Reject == ~Allowed /\ PrintT(<<"MISMATCH", ToJson([case |-> e.case, line |-> l, event |-> e,
-                                   mayEffect |-> MayEffect(e.r, e.p)])>>)
+                                   mayEffect |-> IF IsMux THEN TRUE ELSE MayEffect(e.r, e.p),
+                                   forgedAccepted |-> IF IsMux THEN ~C13_MuxNoForgedAccepted ELSE FALSE])>>)
 Next == l <= Len(Rec) /\ l' = l + 1 /\ (Allowed \/ Reject)
 TraceSpec == Init /\ [][Next]_<<l>>
 Consumed ==
